@@ -25,7 +25,8 @@ class C16(Check):
     rule = (
         "Hypothesis draws a population of the harness ontology and a history of 1-12 write operations on its list- "
         "and set-valued managed fields: assignment of a new list/set (repeated elements, any order), assignment of "
-        "the field to itself, += / |=, append, extend, insert, item assignment, add, update - starting from "
+        "the field to itself, += / |=, append, extend, insert, item assignment, add, update, and construction of a new object "
+        "whose field gets its first contents from the constructor - starting from "
         "whatever the previous operations and inferences left in the field. Oracle: a plain Python list/set model "
         "updated with the same operation gives the elements that must be in the field (order and repetitions for "
         "lists, compared on the part of the field the model knows: elements added by inference are allowed "
@@ -55,9 +56,19 @@ class C16(Check):
             pop = gen_population(draw, max_bosses=0)
             by_cls = {c: [i for i, p in enumerate(pop) if p["cls"] == c] for c in ("Org", "Agent")}
             ops = []
+            cls_of = [p["cls"] for p in pop]
             for _ in range(draw(st.integers(1, 12 if tier == "quick" else 25))):
-                o = draw(st.integers(0, len(pop) - 1))
-                f, kind, rng = draw(st.sampled_from(COLLECTION_FIELDS[pop[o]["cls"]]))
+                if draw(st.integers(0, 5)) == 0:
+                    # a new object whose collection field gets its first contents from the constructor
+                    c = draw(st.sampled_from(["Org", "Agent"]))
+                    f, kind, rng = draw(st.sampled_from(COLLECTION_FIELDS[c]))
+                    args = draw(st.lists(st.sampled_from(by_cls[rng]), min_size=1, max_size=3, unique=(kind == "set")))
+                    ops.append({"o": len(cls_of), "f": f, "op": "construct", "args": args, "idx": 0, "cls": c})
+                    by_cls[c].append(len(cls_of))
+                    cls_of.append(c)
+                    continue
+                o = draw(st.integers(0, len(cls_of) - 1))
+                f, kind, rng = draw(st.sampled_from(COLLECTION_FIELDS[cls_of[o]]))
                 op = draw(st.sampled_from(LIST_OPS if kind == "list" else SET_OPS))
                 args = draw(st.lists(st.sampled_from(by_cls[rng]), min_size=0 if op in ("assign", "iadd", "ior", "extend", "update") else 1,
                                      max_size=3))
@@ -78,6 +89,20 @@ class C16(Check):
         used = set()
         for n, op in enumerate(ir["ops"]):
             o, f, name, args, idx = op["o"], op["f"], op["op"], op["args"], op["idx"]
+            if name == "construct":
+                from ..models import ontology as O
+
+                kind = M.FIELDS[(op["cls"], f)][1]
+                objs = [inst[a] for a in args]
+                used.add(name)
+                try:
+                    inst.append(O.CLASSES[op["cls"]](f"{op['cls'][0].lower()}{o}", **{f: list(objs) if kind == "list" else set(objs)}))
+                except Exception as exc:
+                    return crash(exc, f"op {n} {op}", classes=sorted(used))
+                classes.append(op["cls"])
+                model[(o, f)] = list(args) if kind == "list" else set(args)
+                field_now = getattr(inst[o], f)
+                before_labels = set()
             kind = M.FIELDS[(classes[o], f)][1]
             cur = model.setdefault((o, f), [] if kind == "list" else set())
             objs = [inst[a] for a in args]
@@ -86,9 +111,12 @@ class C16(Check):
                 name = "append"
             used.add(name)
             try:
-                field_now = getattr(obj, f)
-                before_labels = {M_label(inst, x) for x in field_now}
-                if name == "assign":
+                if name != "construct":
+                    field_now = getattr(obj, f)
+                    before_labels = {M_label(inst, x) for x in field_now}
+                if name == "construct":
+                    pass
+                elif name == "assign":
                     setattr(obj, f, list(objs) if kind == "list" else set(objs))
                     model[(o, f)] = list(args) if kind == "list" else set(args)
                 elif name == "assign_self":
